@@ -1,4 +1,95 @@
-(* Executable interface of the IntTy layer (op codes 3100..3199). Stub until the layer is built. *)
-From A1 Require Import Base.Res.
+(* Executable interface of the IntTy layer (op codes 3100..3199); mirror of harness/a1h/src/intty.rs.
+
+   3101 lo_kind lo hi_kind hi ext      -> 0 kind has_min min has_max max ext | 1 err | 2 panic
+   3102 lo_kind lo hi_kind hi ext      -> 0 retkind(min) retkind(max) len min-text len max-text
+   3103 n (lo_kind lo hi_kind hi ext)* -> 0 (kind has_min min has_max max ext)*   (n definitions in one module)
+   3104 lo_kind lo hi_kind hi ext      -> 0 kind hasMIN MIN hasMIN_T MIN_T hasMAX MAX hasMAX_T MAX_T EXTENSIBLE
+   bound kind: 0 = literal, 1 = MIN/MAX keyword, 2 = absent (both bounds: plain INTEGER, ext must be 0) *)
+From A1 Require Import Base.Res Front.IntTy.
 Local Open Scope Z_scope.
-Definition run_intty (m : mode) (op : Z) (a : list Z) : list Z := [-1].
+
+Definition kind_code (k : ikind) : Z :=
+  match k with U8 => 0 | I8 => 1 | U16 => 2 | I16 => 3 | U32 => 4 | I32 => 5 | U64 => 6 | I64 => 7 end.
+
+Definition sbound_of (kind v : Z) : option sbound :=
+  match kind with 0 => Some (Lit v) | 1 => Some Kw | _ => None end.
+
+Definition srange_of (lk lo hk hi ext : Z) : option srange :=
+  if (lk =? 2) || (hk =? 2) then
+    if (lk =? 2) && (hk =? 2) && (ext =? 0) then Some Unconstrained else None
+  else
+    match sbound_of lk lo, sbound_of hk hi with
+    | Some l, Some h => Some (Constrained l h (negb (ext =? 0)))
+    | _, _ => None
+    end.
+
+Definition opt_z (o : option Z) : list Z := match o with Some z => [1; z] | None => [0; 0] end.
+Definition bool_z (b : bool) : Z := if b then 1 else 0.
+
+Definition describe (t : rty) : list Z :=
+  kind_code (rk t) :: opt_z (rmin t) ++ opt_z (rmax t) ++ [bool_z (rext t)].
+
+Definition enc_res {A} (f : A -> list Z) (r : res A) : list Z :=
+  match r with
+  | Ok a => 0 :: f a
+  | Err e => [1; Z.of_N e]
+  | Panic p => [2; Z.of_N p]
+  end.
+
+Definition lenp (l : list Z) : list Z := Z.of_nat (length l) :: l.
+
+(* n definitions in one module: the module is parsed, then resolved definition by definition
+   (first error wins), then converted *)
+Fixpoint ranges_of (n : nat) (a : list Z) : option (list srange) :=
+  match n, a with
+  | O, [] => Some []
+  | S n', lk :: lo :: hk :: hi :: ext :: rest =>
+      match srange_of lk lo hk hi ext, ranges_of n' rest with
+      | Some r, Some rs => Some (r :: rs)
+      | _, _ => None
+      end
+  | _, _ => None
+  end.
+
+Fixpoint resolve_all (rs : list srange) : res (list (option Z * option Z * bool)) :=
+  match rs with
+  | [] => Ok []
+  | r :: t => let! x := front_range r in let! xs := resolve_all t in Ok (x :: xs)
+  end.
+
+Fixpoint convert_all (m : mode) (xs : list (option Z * option Z * bool)) : res (list Z) :=
+  match xs with
+  | [] => Ok []
+  | (lo, hi, ext) :: t => let! ty := int_type m lo hi ext in let! r := convert_all m t in Ok (describe ty ++ r)
+  end.
+
+Definition run_intty (m : mode) (op : Z) (a : list Z) : list Z :=
+  match op, a with
+  | 3101, [lk; lo; hk; hi; ext] =>
+      match srange_of lk lo hk hi ext with
+      | None => [-1]
+      | Some r => enc_res describe (src_int_type m r)
+      end
+  | 3102, [lk; lo; hk; hi; ext] =>
+      match srange_of lk lo hk hi ext with
+      | None => [-1]
+      | Some r =>
+          enc_res (fun '(k, a, b) => kind_code k :: kind_code k :: lenp a ++ lenp b)
+                  (let! t := src_int_type m r in min_max_fn_text m t)
+      end
+  | 3104, [lk; lo; hk; hi; ext] =>
+      match srange_of lk lo hk hi ext with
+      | None => [-1]
+      | Some r =>
+          enc_res (fun t => let '(k, mn, mnt, mx, mxt, e) := walker_consts t in
+                            kind_code k :: opt_z mn ++ opt_z mnt ++ opt_z mx ++ opt_z mxt ++ [bool_z e])
+                  (src_int_type m r)
+      end
+  | 3103, n :: rest =>
+      if n <? 1 then [-1] else
+      match ranges_of (Z.to_nat n) rest with
+      | None => [-1]
+      | Some rs => enc_res (fun l => l) (let! xs := resolve_all rs in convert_all m xs)
+      end
+  | _, _ => [-1]
+  end.
